@@ -34,5 +34,12 @@ let do_check (seed : int) (txt : string) : string =
      | _ -> "REJECT")
   | _ -> "PARSE-ERR"
 
+(* c04premises: the computable premises of C04_prints_admitted (closed, rt_syn_ok, init_linear) on the
+   program text: where the answer is PREMISES-OK the theorem covers EVERY run of the program in the two
+   polarized modes *)
+let do_premises (txt : string) : string =
+  if c04_premises_text (explode txt) then "PREMISES-OK" else "PREMISES-NO"
+
 let () =
+  register "c04premises" do_premises;
   List.iter (fun seed -> register (Printf.sprintf "saxcheck-%d" seed) (do_check seed)) [0; 1; 2; 3]
